@@ -402,6 +402,15 @@ def r6_poc_leaves_force_alone(ctx):
         effects.RETURN_ALIAS.clear()
 
 
+def r7_edits_change_the_hash(ctx):
+    """an in-place edit of a method-keyword or options dictionary that is
+    passed again must lead to new results everywhere, including the rating
+    cache, which is keyed on the fit hash: every setting is hashed by its
+    full value"""
+    from .c12 import r1_coverage
+    r1_coverage(ctx)
+
+
 RULES = [
     ("C10-R1", "no in-place mutation of by-value arguments", r1_no_mutation),
     ("C10-R2", "no retention of caller objects by reference",
@@ -413,4 +422,6 @@ RULES = [
      "the passed settings", r5_change_detection),
     ("C10-R6", "contact point estimation leaves the force array alone",
      r6_poc_leaves_force_alone),
+    ("C10-R7", "every setting enters the fit hash by its full value (the "
+     "rating cache is keyed on it)", r7_edits_change_the_hash),
 ]
